@@ -76,6 +76,11 @@ def run(prop, tier, seed, replay=None):
                     rep.add_mc('MC_Extract %s' % json.dumps(b, sort_keys=True), r,
                                'all trees, labels {A,B}: instantiation, fan-out, counts, flow, context-free iff continuous')
                     trees.extend(c['tree'] for c in r.cases)
+                # the tree the bracket reader delivers for a one-token sentence without a wrapping root, `(A w)`:
+                # a single node that is root and token at once
+                trees[0:0] = [{'n': 1, 'nodes': [{'y': [1], 'd': 0, 'tok': True,
+                                                  'a': treeio.attr(lab=lb, word='w1', lemma='--', morph='--', edge='--')}]}
+                              for lb in ('A', 'B')]
                 modes = ALL_MODES if prop == 'C08' else []
                 for k, T in enumerate(trees):       # every tree once alone ...
                     todo_tb.append(('E-%06d' % k, [T], modes[k % len(modes):k % len(modes) + 2] if modes else [], None, seed + k))
